@@ -11,8 +11,17 @@
      (4 hdr mode command arg)        request bound to a recording endpoint; mode 0 ReplyWith
                                      (command, body arg), 1 RefuseWith(command, ec), 2 Refuse(ec)
         observed (1 nsent hdr body errno) | (0) panicked
+     (5 codec hdr gov registered valid)   through codec V<codec> (no compression, no cipher),
+                                     then Decode() on the receiver; registered = a message type
+                                     is registered under hdr's command, valid = proto.Unmarshal
+                                     accepts the payload for it (both answered by the harness)
+        observed (1 ok body) | (0)
+   In scenario 4, mode 2 (Refuse) and mode 3 (Reply(ack), arg = gov) consult the message registry;
+   its answer (paired ack id / id of the ack's type, 0 = none) travels in the command slot.
    gov  = (0) nil | (1 ikind v) | (2 b) | (3 bits32 wide) | (4 bits64) | (5 #str) | (6 #bytes wide)
-   body = (0) nil | (1 z) int64 | (2 bits) float64 | (3 #s) string | (4 #b) []byte | (9) other
+        | (7 type #payload #marshalled) a wrapperspb message (0 StringValue 1 Int64Value 2 BytesValue)
+   body = (0) nil | (1 z) int64 | (2 bits) float64 | (3 #s) string | (4 #b) []byte
+        | (5 #marshalled) proto.Message | (9) other
    r*   = (1 value) | (2) panicked           hdr = (cmd seq typ flg node (refer ...))
    Float conversions and strconv float text are oracles: the observed value is fed to the model,
    so only the panic/no-panic shape of those outputs is compared. *)
@@ -41,6 +50,7 @@ Definition gov_of (s : sx) : option (gov * Z) :=
   | SList [SInt 4; SInt bits] => Some (GF64 bits, 0)
   | SList [SInt 5; SBytes s] => Some (GStr (zs s), 0)
   | SList [SInt 6; SBytes b; SInt wide] => Some (GBytes (zs b), wide)
+  | SList [SInt 7; SInt _; SBytes _; SBytes m] => Some (GProto (zs m), 0)
   | _ => None
   end.
 
@@ -52,6 +62,7 @@ Definition body_of (s : sx) : option (option body) :=
   | SList [SInt 2; SInt f] => Some (Some (BFloat f))
   | SList [SInt 3; SBytes b] => Some (Some (BStr (zs b)))
   | SList [SInt 4; SBytes b] => Some (Some (BBytes (zs b)))
+  | SList [SInt 5; SBytes m] => Some (Some (BProto (zs m)))
   | SList [SInt 9] => Some None
   | _ => None
   end.
@@ -63,6 +74,7 @@ Definition body_eqb (a b : body) : bool :=
   | BFloat x, BFloat y => x =? y
   | BStr x, BStr y => zlist_eqb x y
   | BBytes x, BBytes y => zlist_eqb x y
+  | BProto x, BProto y => zlist_eqb x y
   | _, _ => false
   end.
 Definition obody_eqb (m : body) (o : option body) : bool :=
@@ -111,7 +123,8 @@ Definition check_body (g : gov) (wide : Z) (ob : option body)
                 (fun _ => match ri with Some v => v | None => 0 end)
                 (fun _ => match rf with Some v => v | None => 0 end)
                 (fun _ => match rs with Some v => v | None => [] end)
-                (fun _ => rf) in
+                (fun _ => rf)
+                (fun _ => match rs with Some v => v | None => [] end) in
   let b := set_body o g in
   let corr :=
     vjoin (check_that (obody_eqb b ob) (VMismatch 1))
@@ -131,6 +144,7 @@ Definition check_body (g : gov) (wide : Z) (ob : option body)
     | GF64 bits => oz_eqb rf (Some bits)
     | GStr s => ol_eqb rs (Some s)
     | GBytes l => ol_eqb rb (Some l)
+    | GProto m => obody_eqb (BProto m) ob
     end in
   let text :=
     match rs with
@@ -150,6 +164,7 @@ Definition check_body (g : gov) (wide : Z) (ob : option body)
                 | GNil => zlist_eqb w []
                 | GStr s => zlist_eqb w s
                 | GBytes l => zlist_eqb w l
+                | GProto m => zlist_eqb w m
                 | GInt _ v => let '(x, n) := varint w in
                               (n =? Z.of_nat (length w)) && ((x - v) mod 2 ^ 64 =? 0)
                 | GBool t => let '(x, n) := varint w in
@@ -163,7 +178,7 @@ Definition check_body (g : gov) (wide : Z) (ob : option body)
 
 (* ---- scenario 3: across the wire ---------------------------------------------------- *)
 Definition no_oracle (wide : Z) : oracles :=
-  mkOr (fun _ => wide) (fun _ => 0) (fun _ => 0) (fun _ => []) (fun _ => None).
+  mkOr (fun _ => wide) (fun _ => 0) (fun _ => 0) (fun _ => []) (fun _ => None) (fun _ => []).
 
 Definition check_wire (codec thr : Z) (enc : bool) (h : hdr) (ec : option Z) (g : gov) (wide : Z)
            (obs : option (hdr * option body * Z * option (list Z))) : verdict :=
@@ -202,9 +217,13 @@ Definition check_wire (codec thr : Z) (enc : bool) (h : hdr) (ec : option Z) (g 
 Definition check_reply (h : hdr) (mode command : Z) (argb : body) (argec : Z)
            (obs : option (Z * hdr * option body * Z)) : verdict :=
   let p := pkt_of_hdr h BNil (Some 1) in
+  (* modes 2 and 3 consult the message registry: its answer travels in the command slot *)
   let m := if mode =? 0 then reply_with p command argb
            else if mode =? 1 then refuse_with p command argec
-           else refuse (fun _ => 0) p argec in
+           else if mode =? 2 then refuse (fun _ => command) p argec
+           else reply command p argb in
+  let want_cmd := if (mode =? 0) || (mode =? 1) then command
+                  else if command =? 0 then hcmd h else command in
   match m, obs with
   | None, None => VOk
   | Some (e, q), Some (nsent, oh, ob, oerrno) =>
@@ -216,9 +235,9 @@ Definition check_reply (h : hdr) (mode command : Z) (argb : body) (argec : Z)
       let copied := (nsent =? 1) && (hseq oh =? hseq h) && (htyp oh =? htyp h) &&
                     (hnode oh =? hnode h) && zlist_eqb (hrefs oh) (hrefs h) in
       let prop :=
-        if mode =? 0
-        then check_that (copied && (hcmd oh =? command) && obody_eqb argb ob) (VPropFail 6)
-        else check_that (copied && (hcmd oh =? (if mode =? 1 then command else hcmd h)) &&
+        if (mode =? 0) || (mode =? 3)
+        then check_that (copied && (hcmd oh =? want_cmd) && obody_eqb argb ob) (VPropFail 6)
+        else check_that (copied && (hcmd oh =? want_cmd) &&
                          has_flag (hflg oh) root_PFlagError && (oerrno =? argec)) (VPropFail 7) in
       vjoin prop corr
   | _, _ => VMismatch 11
@@ -299,10 +318,50 @@ Definition check (c : sx) : verdict :=
                 | SInt ec => check_reply h mode command BNil ec obs'
                 | _ => VBad
                 end
+              else if mode =? 3 then
+                match gov_of arg with
+                | Some (GProto m, _) => check_reply h 3 command (BProto m) 0 obs'
+                | _ => VBad
+                end
               else VBad
           | None => VBad
           end
       | None => VBad
+      end
+  | SList [SList [SInt 5; SInt codec; h; g; SInt registered; SInt valid]; obs] =>
+      match hdr_of h, gov_of g with
+      | Some h, Some (g, wide) =>
+          let p := with_body (pkt_of_hdr h BNil None) (set_body (no_oracle wide) g) in
+          let w := if codec =? 1 then wire_v1 tag_coders 4096 false false p
+                   else wire_v2 tag_coders 8192 false false p in
+          match w, obs with
+          | None, SList [SInt 0] => VOk
+          | Some q, SList [SInt 1; SInt ok; ob] =>
+              match body_of ob with
+              | Some ob =>
+                  let d := decode (negb (registered =? 0)) (negb (valid =? 0)) q in
+                  let corr :=
+                    match d with
+                    | Some q' => vjoin (check_that (ok =? 1) (VMismatch 18))
+                                       (check_that (obody_eqb (pbody q') ob) (VMismatch 19))
+                    | None => vjoin (check_that (ok =? 0) (VMismatch 18))
+                                    (check_that (obody_eqb (pbody q) ob) (VMismatch 19))
+                    end in
+                  (* a message sent under an id whose registered type accepts it arrives as the same message *)
+                  let prop :=
+                    match g with
+                    | GProto m =>
+                        if negb (registered =? 0) && negb (valid =? 0) && negb (has_flag (hflg h) root_PFlagError)
+                        then check_that ((ok =? 1) && obody_eqb (BProto m) ob) (VPropFail 3)
+                        else VOk
+                    | _ => VOk
+                    end in
+                  vjoin prop corr
+              | None => VBad
+              end
+          | _, _ => VMismatch 10
+          end
+      | _, _ => VBad
       end
   | _ => VBad
   end.
